@@ -16,7 +16,9 @@ LEVEL = 'exploration'
 TECHNIQUE = 'bounded-exhaustive enumeration of all windows/slices/indices and all index pairs on a recording stream, bytes fetched vs independent layout map'
 LEVEL_TEXT = ('All non-empty windows, slices (step +-1,+-2) and indices, and all ordered pairs of indices, on every file of a '
               'finite family are executed on the real lazy reader over a recording stream; every fetched byte must lie in the '
-              'extents the independent layout map allows for the chunks overlapping the request.')
+              'extents the independent layout map allows for the chunks overlapping the request. A second variant puts the file and '
+              'its matching index on disk, opens it by path with the library\'s open() wrapped, and judges the first operation after '
+              'each fresh open (one-off work at first access counts as part of that request).')
 LEVEL_NOTE = ('Trusted: layout map produced by the independent encoder. Allowed: requested channel bytes inside overlapping chunks '
               '(contiguous), whole overlapping chunks (interleaved/DAQmx), 28-byte lead-in of each segment from the first to the '
               'last overlapping chunk. An empty window may touch at most the one chunk containing its offset.')
